@@ -11,6 +11,7 @@
 //!          first for an ADD-PATH type); the value is made by the NLRI type's own parser from exactly these octets.
 //!          A line is value-carrying when any of its tokens starts with `=` (then all NLRI tokens must be values).
 //!   kind = `-` (family default, set_nexthop not called) | v4 | m4 | v6 | m6 | ll | ll2 | vpn4 | vpn6 | empty | unimpl
+//!          | llx (set_nexthop(Ipv6LL(g, old)) then set_nexthop_ll_addr(new): the link-local half is replaced)
 //!          | ll3 (set_nexthop_ll_addr alone) | v4ll (set_nexthop(IPv4) then set_nexthop_ll_addr: no such next hop)
 //!          | m6ll (set_nexthop(Multicast(IPv6)) then set_nexthop_ll_addr: refused, update_builder.rs:185)
 //!          | pll | pv6 | pv6ll: the calls come AFTER the announcements were added: set_nexthop_ll_addr alone (next to
@@ -63,7 +64,7 @@ fn fam_of(s: &str) -> Option<Fam> {
 enum Op { Split, Iter, Take, Single }
 
 #[derive(Clone, Copy, PartialEq, Eq, Debug)]
-enum Nh { Default, V4, M4, V6, M6, Ll, Ll2, Ll3, V4ll, M6ll, Vpn4, Vpn6, Empty, Unimpl, Pll, Pv6, Pv6ll }
+enum Nh { Default, V4, M4, V6, M6, Ll, Ll2, Llx, Ll3, V4ll, M6ll, Vpn4, Vpn6, Empty, Unimpl, Pll, Pv6, Pv6ll }
 
 #[derive(Clone, Debug)]
 struct Case {
@@ -214,7 +215,7 @@ fn parse_line(line: &str) -> Option<Case> {
         (wd, ann, None)
     };
     let nh = match w[n - 3] {
-        "-" => Nh::Default, "v4" => Nh::V4, "m4" => Nh::M4, "v6" => Nh::V6, "ll" => Nh::Ll, "ll2" => Nh::Ll2,
+        "-" => Nh::Default, "v4" => Nh::V4, "m4" => Nh::M4, "v6" => Nh::V6, "ll" => Nh::Ll, "ll2" => Nh::Ll2, "llx" => Nh::Llx,
         "vpn4" => Nh::Vpn4, "vpn6" => Nh::Vpn6, "empty" => Nh::Empty, "unimpl" => Nh::Unimpl, "ll3" => Nh::Ll3, "v4ll" => Nh::V4ll,
         "m6" => Nh::M6, "m6ll" => Nh::M6ll, "pll" => Nh::Pll, "pv6" => Nh::Pv6, "pv6ll" => Nh::Pv6ll, _ => return None,
     };
@@ -362,6 +363,7 @@ fn ref_nlri(f: Fam, size: usize, idx: usize) -> Vec<u8> {
 const V4NH: [u8; 4] = [10, 0, 0, 1];
 const V6NH: [u8; 16] = [0x20, 0x01, 0x0d, 0xb8, 0, 0, 0, 0, 0, 0, 0, 0, 0, 0, 0, 1];
 const LLNH: [u8; 16] = [0xfe, 0x80, 0, 0, 0, 0, 0, 0, 0, 0, 0, 0, 0, 0, 0, 1];
+const LLNH_OLD: [u8; 16] = [0xfe, 0x80, 0, 0, 0, 0, 0, 0, 0, 0, 0, 0, 0, 0, 0xab, 0xcd];
 const RD: [u8; 8] = [0, 1, 0, 2, 0, 3, 0, 4];
 
 /// address bytes of the next hop a family has by nature: IPv4 / IPv6 address, for the VPN
@@ -379,7 +381,7 @@ fn ref_nh(f: Fam, nh: Nh) -> Vec<u8> {
         Nh::V4 | Nh::M4 => { v.push(4); v.extend_from_slice(&V4NH); }
         Nh::V6 | Nh::M6 | Nh::Pv6 => { v.push(16); v.extend_from_slice(&V6NH); }
         // (m6ll: if it is accepted at all, RFC 2545 3 gives the 32-octet form)
-        Nh::Ll | Nh::Ll2 | Nh::Pv6ll | Nh::M6ll => { v.push(32); v.extend_from_slice(&V6NH); v.extend_from_slice(&LLNH); }
+        Nh::Ll | Nh::Ll2 | Nh::Llx | Nh::Pv6ll | Nh::M6ll => { v.push(32); v.extend_from_slice(&V6NH); v.extend_from_slice(&LLNH); }
         // a link-local address given alone: the global one is unspecified (::) - which is also the
         // default next hop of the IPv6 families that `pll` finds in place
         Nh::Ll3 | Nh::Pll => { v.push(32); v.extend_from_slice(&[0; 16]); v.extend_from_slice(&LLNH); }
@@ -603,6 +605,9 @@ fn real_nh(nh: Nh) -> Option<NextHop> {
         Nh::M6 | Nh::M6ll => NextHop::Multicast(IpAddr::V6(v6)),
         Nh::V6 | Nh::Ll2 => NextHop::Unicast(IpAddr::V6(v6)),
         Nh::Ll => NextHop::Ipv6LL(v6, Ipv6Addr::from(LLNH)),
+        // (tie coverage) an Ipv6LL next hop whose link-local half set_nexthop_ll_addr then REPLACES by LLNH:
+        // the NextHop::Ipv6LL arm of MpReachNlriBuilder::set_nexthop_ll_addr
+        Nh::Llx => NextHop::Ipv6LL(v6, Ipv6Addr::from(LLNH_OLD)),
         Nh::Vpn4 => NextHop::MplsVpnUnicast(RouteDistinguisher::new(RD), v4),
         Nh::Vpn6 => NextHop::MplsVpnUnicast(RouteDistinguisher::new(RD), IpAddr::V6(v6)),
         Nh::Empty => NextHop::Empty,
@@ -637,7 +642,7 @@ macro_rules! run_family {
             let mut b = UpdateBuilder::<Vec<u8>, $A>::from_attributes_builder(pamap);
             for i in 0..ncomm { b.add_community(StandardCommunity::from_raw(comm_raw(i))).unwrap(); }
             if let Some(nh) = real_nh(c.nh) { b.set_nexthop(nh).unwrap(); }
-            if matches!(c.nh, Nh::Ll2 | Nh::Ll3 | Nh::V4ll | Nh::M6ll) { b.set_nexthop_ll_addr(Ipv6Addr::from(LLNH)).unwrap(); }
+            if matches!(c.nh, Nh::Ll2 | Nh::Llx | Nh::Ll3 | Nh::V4ll | Nh::M6ll) { b.set_nexthop_ll_addr(Ipv6Addr::from(LLNH)).unwrap(); }
             match &c.wd {
                 None => {}
                 Some(v) if v.is_empty() => {
@@ -667,7 +672,7 @@ macro_rules! run_family {
         {
             let mut probe = UpdateBuilder::<Vec<u8>, $A>::new_vec();
             if let Some(nh) = real_nh(c.nh) { if probe.set_nexthop(nh).is_err() { run.nh_rejected = true; } }
-            if !run.nh_rejected && matches!(c.nh, Nh::Ll2 | Nh::Ll3 | Nh::V4ll | Nh::M6ll) {
+            if !run.nh_rejected && matches!(c.nh, Nh::Ll2 | Nh::Llx | Nh::Ll3 | Nh::V4ll | Nh::M6ll) {
                 if probe.set_nexthop_ll_addr(Ipv6Addr::from(LLNH)).is_err() { run.nh_rejected = true; }
             }
             if !run.nh_rejected && !c.ann.is_empty() { probe.add_announcement(mk(c.ann[0], 0)).unwrap(); }
@@ -956,14 +961,14 @@ fn size_range(f: Fam) -> (usize, usize) {
     if f.ap { (lo + 4, hi + 4) } else { (lo, hi) }
 }
 fn nh_len(f: Fam, nh: &str) -> usize {
-    match nh { "v4" | "m4" | "v4ll" => 5, "v6" | "m6" | "pv6" => 17, "ll" | "ll2" | "ll3" | "m6ll" | "pv6ll" => 33, "vpn4" => 13, "vpn6" => 25, "empty" => 1,
+    match nh { "v4" | "m4" | "v4ll" => 5, "v6" | "m6" | "pv6" => 17, "ll" | "ll2" | "llx" | "ll3" | "m6ll" | "pv6ll" => 33, "vpn4" => 13, "vpn6" => 25, "empty" => 1,
         "pll" => if matches!(f.b, V6u | V6mpls) { 33 } else { 1 + default_nh_bytes(f) },
         _ => 1 + default_nh_bytes(f) }
 }
 /// the next-hop forms a family is used with (RFC 4760 3, 2545 3, 8277, 4364 4.3.2, 4659 3.2.1, 8955 4)
 fn natural_nhs(f: Fam) -> &'static [&'static str] {
-    match f.b { V4u | V4rt | Vpls | Evpn => &["v4"], V4m => &["m4", "v4"], V6u => &["v6", "ll", "ll2", "ll3", "pll", "pv6", "pv6ll"], V6m => &["v6", "m6", "pv6"],
-        V4mpls | V6mpls => &["v4", "v6", "ll", "pv6ll"], V4vpn => &["vpn4"], V6vpn => &["vpn6"], V4fs | V6fs => &["empty"] }
+    match f.b { V4u | V4rt | Vpls | Evpn => &["v4"], V4m => &["m4", "v4"], V6u => &["v6", "ll", "ll2", "llx", "ll3", "pll", "pv6", "pv6ll"], V6m => &["v6", "m6", "pv6"],
+        V4mpls | V6mpls => &["v4", "v6", "ll", "llx", "pv6ll"], V4vpn => &["vpn4"], V6vpn => &["vpn6"], V4fs | V6fs => &["empty"] }
 }
 
 fn fix_size(f: Fam, s: usize) -> usize {
@@ -1028,7 +1033,7 @@ fn line(op: &str, f: Fam, wd: &[String], ann: &[String], nh: &str, attrs: usize)
 /// the eight NLRI types of the first version of this check: they keep the full boundary block
 const FAMS: [Fam; 8] = [Fam { b: V4u, ap: false }, Fam { b: V6u, ap: false }, Fam { b: V4u, ap: true }, Fam { b: V6u, ap: true },
     Fam { b: V6fs, ap: false }, Fam { b: V4m, ap: false }, Fam { b: V6m, ap: false }, Fam { b: V4mpls, ap: false }];
-const NHS: [&str; 17] = ["-", "v4", "m4", "v6", "ll", "ll2", "vpn4", "vpn6", "empty", "unimpl", "ll3", "v4ll", "m6", "m6ll", "pll", "pv6", "pv6ll"];
+const NHS: [&str; 18] = ["-", "v4", "m4", "v6", "ll", "ll2", "llx", "vpn4", "vpn6", "empty", "unimpl", "ll3", "v4ll", "m6", "m6ll", "pll", "pv6", "pv6ll"];
 const OPS: [&str; 4] = ["split", "iter", "take", "single"];
 
 fn all_fams() -> Vec<Fam> {
@@ -1180,7 +1185,7 @@ fn gen(rng: &mut Rng, tier: Tier) -> Vec<String> {
         let hi = fix_size(f, hi.min(36));
         let l1 = [format!("{}", lo)];
         let mix = [format!("{}x3", lo), format!("{}", hi)];
-        for nh in ["m6", "m6ll", "pll", "pv6", "pv6ll", "ll3", "ll2"] {
+        for nh in ["m6", "m6ll", "pll", "pv6", "pv6ll", "ll3", "ll2", "llx"] {
             v.push(line("split", f, &[], &mix, nh, 11));
             v.push(line("iter", f, &l1, &[format!("{}x1500", hi)], nh, 300));
             v.push(line("single", f, &[], &[], nh, 0));
